@@ -97,14 +97,58 @@ def run_server(maxline, ops):
         httping.MAX_LINE_SIZE = old
 
 
-def run_client(method, maxline, ops, dictable=False):
+def run_porter(maxline, ops):
+    """the non-WSGI server: ops ["k", ca] | ["r", ca, hex] | ["t"] (Porter.serviceAll)"""
+    from ioflo.aio.http import httping, serving
+    old = httping.MAX_LINE_SIZE
+    httping.MAX_LINE_SIZE = maxline
+    try:
+        porter = serving.Porter(ha=("127.0.0.1", 8080), timeout=0.0)
+        srv = porter.servant
+        srv.serviceConnects = lambda: None
+        srv.serviceReceivesAllIx = lambda: None
+        srv.serviceTxesAllIx = lambda: [ix.serviceTxes() for ix in list(srv.ixes.values())]
+        ixs, order = {}, []
+        raised = None
+        for op in ops:
+            if raised:
+                break
+            try:
+              with contextlib.redirect_stderr(io.StringIO()):
+                if op[0] == "k":
+                    if op[1] not in ixs:
+                        ixs[op[1]] = srv.ixes[op[1]] = _Ix(op[1])
+                        order.append(op[1])
+                        porter.serviceConnects()
+                elif op[0] == "r":
+                    if op[1] in srv.ixes:
+                        srv.ixes[op[1]].rxbs.extend(unhx(op[2]))
+                else:
+                    porter.serviceAll()
+            except Exception as ex:
+                raised = type(ex).__name__
+        sent = {ca: bytes(ixs[ca].sent) + b"".join(ixs[ca].txes) for ca in order}
+        lines = ["raised=%s" % ("T" if raised else "F")]
+        for ca in order:
+            if ca not in porter.stewards:
+                lines.append("%d closed" % ca)
+            else:
+                r = porter.stewards[ca].requestant
+                lines.append("%d served=%d parser=%s left=%s" % (ca, sent[ca].count(b"HTTP/1.1 200 OK\r\n"),
+                                                                 "none" if r.parser is None else "live", hx(ixs[ca].rxbs)))
+        return lines, {"raised": raised, "sent": sent}
+    finally:
+        httping.MAX_LINE_SIZE = old
+
+
+def run_client(method, maxline, ops, dictable=False, redirectable=False):
     """ops: bytes (received, then serviceResponse) | "c" (cutoff)"""
     from ioflo.aio.http import httping, clienting
     old = httping.MAX_LINE_SIZE
     httping.MAX_LINE_SIZE = maxline
     try:
-        patron = clienting.Patron(hostname="127.0.0.1", port=8080, method=method, path="/x", redirectable=False,
-                                  dictable=dictable)
+        patron = clienting.Patron(hostname="127.0.0.1", port=8080, method=method, path="/x",
+                                  redirectable=redirectable, dictable=dictable)
         patron.connector.serviceReceives = lambda: None
         patron.transmit(method=method)      # (a bare transmit() resets respondent.method to GET: D34c, C34)
         raised = None
@@ -194,6 +238,22 @@ def body_streams(kind):
     return out
 
 
+# ---- redirect family: 3xx responses whose Location is missing, empty, unusable or fine (same server)
+LOCATIONS = [None, "", "/other", "other?x=1", "http://127.0.0.1:8080/y", "http://h:x/", "http://h:99999/", "http://h:-1/",
+             "http://[::1/", "http://::1]/", "http://nonexistent.invalid/", "//", "http://", "?q", "#f", "\xe9", "http://h:80:90/"]
+
+
+def redirect_streams():
+    out = []
+    for st in (301, 302, 303, 307):
+        for loc in LOCATIONS:
+            head = ("HTTP/1.1 %d Moved\r\n" % st).encode()
+            if loc is not None:
+                head += b"Location: " + loc.encode("iso-8859-1") + b"\r\n"
+            out.append(("redirect/%d/%r" % (st, loc), head + b"Content-Length: 0\r\n\r\n"))
+    return out
+
+
 def hv_streams(kind):
     """(label, stream) for every header value (and, for requests, every target) of the family"""
     out = []
@@ -233,7 +293,10 @@ class CHECK(core.Check):
                "connector.serviceReceives is replaced; real Requestant/Respondent — vs the Lean models (driver engine "
                "'httpmsg': requests req/rsp, valet, client)",
                "the WSGI application, Responder output and real sockets are not modelled; CPython primitives as in C29",
-               "the tree checked is /repo with fixes D19, D16, D29a, D29b and D18-parsemessage-valueerror applied"]
+               "the tree checked is /repo with fixes D19, D16, D29a, D29b, D18, D29c (committed); the Porter and redirect "
+               "families need fixes/D32b-porter-errored-request.patch and fixes/D32a-patron-bad-redirect.patch: their "
+               "presence is detected, without them the run prints a NOTE and skips that family (the defects are reported: "
+               "replays/C32-D32a-unpatched.json, replays/C32-D32b-unpatched.json)"]
     PARTIAL = ["responses with Content-Type text/event-stream and request targets with bracketed / non-ASCII netloc are "
                "outside the model (explicit outcome 'unmodelled'); the oracle still checks them on the real code",
                "C32_serviceReqs_isolated is about the model of the Valet's connection table (one association list for "
@@ -246,7 +309,7 @@ class CHECK(core.Check):
                   "waits, or is marked failed (C32_parse_total, C32_parse_total_from); Valet.serviceReqs over any "
                   "table of such connections does not raise and what becomes of each connection is a function of that "
                   "connection's own state only (C32_serviceReqs_isolated, C32_reqStep_other_untouched, "
-                  "C32_connect_recv_safe, C32_empty_safe); serviceAll (requests, responders, transmit) never raises for any "
+                  "C32_connect_recv_safe, C32_empty_safe), likewise Porter.serviceStewards (C32_porter_isolated); serviceAll (requests, responders, transmit) never raises for any "
                   "sequence of connects, receives on any connection and service calls (C32_server_never_raises); "
                   "Patron.serviceResponse does not raise and records the "
                   "response (C32_client_no_raise). On the model of the unrepaired parseMessage a bad chunk size raises "
@@ -265,6 +328,26 @@ class CHECK(core.Check):
 
     def extra_evidence(self):
         return {"outside_model_cases_checked_by_oracle_only": self.unmodelled}
+
+    _d32 = None
+
+    def _fixes(self):
+        """are fixes/D32a (Patron: unusable Location) and fixes/D32b (Porter: errored request) in the tree under
+        test?  Both are reported defects of the unchanged code; their case families run once the fix is there."""
+        if CHECK._d32 is None:
+            a = run_client("GET", 65536, [b"HTTP/1.1 302 Found\r\nContent-Length: 0\r\n\r\n"], redirectable=True)[1] is None
+            b = run_porter(65536, [["k", 1], ["r", 1, hx(b"FOO / HTTP/1.1\r\n\r\n")], ["t"]])[1]["raised"] is None
+            CHECK._d32 = (a, b)
+            for ok, name in ((a, "D32a-patron-bad-redirect"), (b, "D32b-porter-errored-request")):
+                if not ok:
+                    print("NOTE property=C32 fixes/%s.patch not applied: its case family is skipped in this run" % name)
+        return CHECK._d32
+
+    def _porter_case(self, rng, bad):
+        c = self._server_case(rng, bad=bad, cut=None)
+        c["type"] = "porter"
+        c["ops"] = [["t"] if o == ["s"] else o for o in c["ops"]]
+        return c
 
     def _damaged(self, rng, kind):
         if rng.random() < 0.35:
@@ -315,8 +398,13 @@ class CHECK(core.Check):
                 bad = self._damaged(rng, "rsp")
         cs = [cut] if cut is not None else sorted(rng.sample(range(len(bad) + 1), min(len(bad) + 1, rng.choice([0, 1, 2, 3]))))
         ops = ["f" + hx(p) for p in c29.pieces_of(bad, cs)]
-        if rng.random() < 0.3:
+        for _ in range(rng.choice([0, 0, 1, 2])):          # serviceResponse passes with nothing received
+            ops.insert(rng.randrange(len(ops) + 1), "f-")
+        r = rng.random()
+        if r < 0.3:
             ops.append("c")
+        elif r < 0.4:                                       # cut off in the middle, the rest never arrives or arrives late
+            ops.insert(rng.randrange(len(ops) + 1), "c")
         return {"type": "client", "method": method, "max": 65536, "ops": ops}
 
     def exhaustive(self, tier):
@@ -352,11 +440,32 @@ class CHECK(core.Check):
             c = self._server_case(rng, bad=stream, cut=None)
             c["hv"] = label
             yield c
+        has_a, has_b = self._fixes()
+        if has_b:        # the non-WSGI server: every malformed request, header value and body on one of its connections
+            for bad in BAD:
+                yield self._porter_case(rng, bad)
+            for label, stream in hv_streams("req"):
+                c = self._porter_case(rng, stream)
+                c["hv"] = label
+                yield c
+            for label, stream, close in body_streams("req"):
+                c = self._porter_case(rng, stream)
+                c["hv"] = label
+                yield c
+        if has_a:        # redirect responses to a redirectable Patron; a followed redirect is answered by a 200
+            for label, stream in redirect_streams():
+                yield {"type": "client", "method": "GET", "max": 65536, "redirectable": True, "oracle_only": True, "hv": label,
+                       "ops": ["f" + hx(stream), "f-", "f" + hx(b"HTTP/1.1 200 OK\r\nContent-Length: 2\r\n\r\nok")]}
 
     def generate(self, rng, n, tier):
         for i in range(n):
             r = rng.random()
-            if r < 0.45:
+            if r < 0.1 and self._fixes()[1]:
+                bad = self._damaged(rng, "req")
+                while self.p29._outside("req", bad):
+                    bad = self._damaged(rng, "req")
+                yield self._porter_case(rng, bad)
+            elif r < 0.45:
                 yield self._server_case(rng, maxline=rng.choice([65536, 65536, 65536, 64]))
             elif r < 0.7:
                 yield self._client_case(rng)
@@ -372,23 +481,29 @@ class CHECK(core.Check):
     def impl(self, case):
         if case["type"] == "server":
             out = run_server(case["max"], case["ops"])[0]
+        elif case["type"] == "porter":
+            out = run_porter(case["max"], case["ops"])[0]
         elif case["type"] == "client":
             ops = ["c" if o == "c" else unhx(o[1:]) for o in case["ops"]]
-            out = run_client(case["method"], case["max"], ops, case.get("dictable", False))[0]
+            out = run_client(case["method"], case["max"], ops, case.get("dictable", False), case.get("redirectable", False))[0]
         else:
             out = self.p29.impl(case)
         self._impl_out[core.case_key(case)] = out
         return out
 
     def requests(self, case):
-        if case["type"] == "server":
-            ops = ["k%d" % o[1] if o[0] == "k" else "r%d:%s" % (o[1], o[2]) if o[0] == "r" else "s" for o in case["ops"]]
+        if case["type"] in ("server", "porter"):
+            ops = ["k%d" % o[1] if o[0] == "k" else "r%d:%s" % (o[1], o[2]) if o[0] == "r" else o[0] for o in case["ops"]]
             return ["valet %d 1 %s" % (case["max"], " ".join(ops))]
         if case["type"] == "client":
             return ["client %s %d 1 %s" % (case["method"], case["max"], " ".join(case["ops"]))]
         return self.p29.requests(case)
 
     def model_post(self, case, replies):
+        if case.get("oracle_only"):
+            # redirects are the subject of C34's model; here only the oracle judges (no exception, response recorded)
+            self.unmodelled += 1
+            return self._impl_out.get(core.case_key(case), ["oracle-only"])
         if "unmodelled" in replies[0]:
             # the model declares the input outside its domain (bracketed / non-ASCII netloc, event stream):
             # no comparison; the oracle still judges the real code on it; counted in the evidence
@@ -400,13 +515,14 @@ class CHECK(core.Check):
     def oracle(self, case, out):
         if out and out[0].startswith("HARNESS-EXC"):
             return "adapter raised: " + out[0]
-        if case["type"] == "server":
-            lines, extra = run_server(case["max"], case["ops"])
+        if case["type"] in ("server", "porter"):
+            runner = run_server if case["type"] == "server" else run_porter
+            lines, extra = runner(case["max"], case["ops"])
             if extra["raised"]:
-                return "exception %s left Valet.serviceAll()" % extra["raised"]
+                return "exception %s left %s.serviceAll()" % (extra["raised"], "Valet" if case["type"] == "server" else "Porter")
             v = case["victim"]
             quiet = [o for o in case["ops"] if not (o[0] == "r" and o[1] == v)]
-            blines, bextra = run_server(case["max"], quiet)
+            blines, bextra = runner(case["max"], quiet)
             for ca, sent in extra["sent"].items():
                 if ca == v:
                     continue
@@ -419,36 +535,39 @@ class CHECK(core.Check):
             return None
         if case["type"] == "client":
             ops = ["c" if o == "c" else unhx(o[1:]) for o in case["ops"]]
-            lines, raised = run_client(case["method"], case["max"], ops, case.get("dictable", False))
+            lines, raised = run_client(case["method"], case["max"], ops, case.get("dictable", False),
+                                       case.get("redirectable", False))
             if raised:
                 return "exception %s left Patron.serviceResponse()" % raised
+            if case.get("redirectable") and "responses= " in lines[0] and "waited=F" in lines[0]:
+                return "redirect neither followed nor delivered: %s" % lines[0]
             return None
         if "escaped=~" not in out[0] and "unmodelled" not in out[0]:
             return "exception left parse(): %s" % out[0]
         return None
 
     def nontrivial(self, case, out):
-        if case["type"] == "server":
+        if case["type"] in ("server", "porter"):
             return any(l.endswith("closed") for l in out)
         if case["type"] == "client":
             return "E" in out[0].split("responses=")[-1].split()[0]
         return "errored=T" in out[0]
 
     def bucket(self, case, out):
-        if case["type"] == "server":
+        if case["type"] in ("server", "porter"):
             v = case["victim"]
             st = [l for l in out[1:] if l.startswith("%d " % v)]
             s = st[0].split()[1].split("=")[0] if st else "?"
             if st and "served" in st[0]:
                 s = "answered" if "served=0" not in st[0] else "waiting"
-            return "server/%s/%s" % (out[0], s)
+            return "%s/%s/%s" % (case["type"], out[0], s)
         if case["type"] == "client":
             f = out[0].split()
             return "client/%s/%s/%s" % (f[0], f[1], "errored" if "E" in f[2] else "ok" if "ok" in f[2] else "none")
         return "parser/" + out[0].replace("state ", "")
 
     def shrink_candidates(self, case):
-        if case["type"] == "server":
+        if case["type"] in ("server", "porter"):
             ops = case["ops"]
             for i in range(len(ops)):
                 if ops[i][0] != "k":
